@@ -1,5 +1,5 @@
 (* Correspondence for C09 (uamiv stream): reference codec <-> library, both directions. *)
-From PNC Require Export Base.Util Base.Words Model.Uamiv Model.Lbdy Model.One3d Model.TempHp.
+From PNC Require Export Base.Util Base.Words Model.Uamiv Model.YearEnd Model.Lbdy Model.One3d Model.TempHp.
 Local Open Scope Z_scope.
 
 Record ucase := Case {
@@ -152,14 +152,13 @@ Definition lcheckS (c : lcase) : bool :=
         && list_eqb pair_eqb (lc_etflag c) (firstn k (spec_camx_time (lb_edates (lc_l c)) (map snd (lc_hours c))))
         && list_eqb pair_eqb (lc_etflag c) (firstn k (lc_full_etflag c))).
 
-(* region 1: a step begins at 23h on the last day of a year (the writer derives the end date as YYJJJ+1).
-   (region 17, ETFLAG carrying the begin time, was retired by the repair fe376a5.) *)
+(* no known-defect region is left for lateral-boundary files: region 1 (writer's end date at a year end) was retired by
+   a9b6e29, region 17 (ETFLAG carrying the begin time) by fe376a5. lb_year_end is kept for the evidence only. *)
 Definition lb_year_end (l : lbdy) (hours : list (Z * Z)) : bool :=
   existsb (fun p => let bd := nth 0 (fst (fst p)) 0 in let bh := fst (snd p) in
                     (bh =? 23) && negb (next_yyjjj bd =? bd + 1))
           (combine (l_steps l) hours).
-Definition lregion (c : lcase) : nat :=
-  if lwhole c && lb_year_end (lc_l c) (lc_hours c) then 1%nat else 0%nat.
+Definition lregion (c : lcase) : nat := 0%nat.
 
 (* Fourth kind of case: the one3d family (one3d / humidity / vertical_diffusivity), Model/One3d.v. *)
 Record ocase := OCase {
@@ -254,10 +253,9 @@ Definition tcheckS (c : tcase) : bool :=
         tc_py_ok c && (0 <? tv_ntimes (tc_view c)) && (Z.of_nat k <=? Z.of_nat (length (t_steps (tc_c c))))
         && tview_eqb (tc_view c) (t_view_of (t_truncate_steps k (tc_c c)))
         && list_eqb pair_eqb (tc_tflag c) (firstn k (t_spec_flags c))).
-(* region 11: single-step file; region 14: the prefix holding exactly the first TWO records *)
+(* region 11: single-step file. (Region 14, the accepted two-record prefix, was retired by the repair 9020b2c.) *)
 Definition tregion (c : tcase) : nat :=
-  if twhole c then (if Z.of_nat (length (t_steps (tc_c c))) <? 2 then 11%nat else 0%nat)
-  else if tc_cut c =? 8 * t_rec_words (tc_c c) then 14%nat else 0%nat.
+  if twhole c && (Z.of_nat (length (t_steps (tc_c c))) <? 2) then 11%nat else 0%nat.
 
 Record hcase := HCase {
   hc_c : heightpres; hc_hhmm : list Z; hc_tbl : list (Z * Z); hc_ref : list word; hc_cut : Z;
